@@ -48,6 +48,16 @@ def _part(ctx, out, rep_acc, violations, counters):
         extra = b_full.split(" ; ")[1] if b_full and " ; " in b_full else ""
         if a != b:
             counters["disagreements"] += 1
+            # the property itself: metadata that contradicts the verifier's expected parameters / table set (the
+            # model's `meta:*` rejections) must be rejected. An accepting implementation is a concrete failing input.
+            if a == "verdict accept" and b and b.startswith("verdict meta:") and counters.get("meta_accept", 0) < 3:
+                counters["meta_accept"] = counters.get("meta_accept", 0) + 1
+                d = detail.get(k, {})
+                violations.append({"class": "accepts-contradicting-metadata:" + b.split("meta:")[1].split()[0],
+                                   "what": f"a proof whose metadata contradicts the verifier's expectation ({b}) is accepted; "
+                                           f"altered fields={d.get('fields')}",
+                                   "replay": {"case_line": (cases[k] if k < len(cases) else "")[:4000], "altered": d.get("fields"),
+                                              "model_verdict": b_full, "replay": d.get("replay")}})
             if counters["disagreements"] <= 3:
                 d = detail.get(k, {})
                 violations.append({"class": "model-disagreement",
